@@ -9,5 +9,6 @@ CONSTANTS
   InitStores <- CollStores
   PublishAfterUnlock = FALSE
   CreatedRevalidated = TRUE
+  SubSer = TRUE
 INVARIANT EmitSched
 CHECK_DEADLOCK FALSE
